@@ -434,6 +434,46 @@ def rule_r8b_extend_map(text, enabled, applied):
         applied.append(f'R8b(extend-map#{n})')
 
 
+def rule_r12_bind_args(text, binds, applied):
+    """`RECV.f(A, B);` (an expression statement whose receiver is a plain local) -> `let a: TA = A; let b: TB = B;
+    RECV.f(a, b);` - the arguments are evaluated in the same order, the receiver is a place without side effects, and a
+    type ascription only moves an unsizing coercion from the argument position to the `let`. Needed where Verus' encoding
+    of dyn-typed arguments keeps quantified library axioms from matching the inline argument."""
+    for quote, k, names in binds:
+        occ = _find_occurrences(text, quote)
+        if len(occ) < k:
+            raise Undecided(f'lost anchor: call `{quote}` (occurrence {k}) not found')
+        a, b = occ[k - 1]
+        st = _lex(text)
+        # the opening parenthesis is the last token of the quote
+        op = max(i for i, t in enumerate(st) if t.start < b and t.text == '(' and t.end <= b)
+        close = match_forward(st, op)
+        if st[close + 1].text != ';':
+            raise Undecided('R12: the call must be an expression statement')
+        # receiver must be `ident . ident (`
+        j = [i for i, t in enumerate(st) if t.start >= a][0]
+        if not (st[j].kind == 'ident' and st[j + 1].text == '.' and st[j + 2].kind == 'ident' and j + 3 == op):
+            raise Undecided('R12: receiver must be a plain local')
+        args, d, cur = [], 0, op + 1
+        for i in range(op + 1, close):
+            if st[i].text in OPEN:
+                d += 1
+            elif st[i].text in CLOSE:
+                d -= 1
+            elif st[i].text == ',' and d == 0:
+                args.append((cur, i - 1))
+                cur = i + 1
+        if cur < close:
+            args.append((cur, close - 1))
+        if len(args) != len(names):
+            raise Undecided(f'R12: {len(args)} arguments, {len(names)} names')
+        lets = ''.join(f'let {n}: {ty} = {text[st[x].start:st[y].end]};\n' for (n, ty), (x, y) in zip(names, args))
+        call = text[st[j].start:st[op].end] + ', '.join(n for n, _ in names) + ')'
+        text = text[:st[j].start] + lets + call + text[st[close].end:]
+        applied.append(f'R12(bind-args {quote}#{k})')
+    return text
+
+
 def rule_r11_unshadow(text, unshadows, applied):
     """alpha-renaming: a local `let [mut] X = X;` that shadows parameter X is renamed (the local and every later use),
     so that contracts can mention the parameter (Verus relates recursive calls to the measure at function entry)"""
@@ -867,7 +907,7 @@ def new_fn_spec(attrs):
         'id': attrs['id'], 'file': attrs['file'], 'name': attrs['name'], 'container': attrs.get('in'),
         'props': [p for p in attrs.get('props', '').split(',') if p],
         'ret': None, 'requires': [], 'ensures': [],  # ensures: list of {'label','props','lines'}
-        'loops': {}, 'folds': {}, 'closures': {}, 'ats': [], 'hoist': [], 'lettypes': {}, 'breaktypes': {}, 'desugar_for': [], 'adapters': {}, 'mapcollects': {}, 'tupleclones': [], 'extendmaps': False, 'lifts': [], 'unshadows': [], 'container_extra': [], 'attrs': [],
+        'loops': {}, 'folds': {}, 'closures': {}, 'ats': [], 'hoist': [], 'lettypes': {}, 'breaktypes': {}, 'desugar_for': [], 'adapters': {}, 'mapcollects': {}, 'tupleclones': [], 'extendmaps': False, 'lifts': [], 'unshadows': [], 'bindargs': [], 'container_extra': [], 'attrs': [],
         'recommends': [], 'decreases': [], 'stub_only': attrs.get('stub') == 'only', 'trusted_reason': attrs.get('trusted'),
     }
 
@@ -965,6 +1005,10 @@ def parse_spec_file(path):
             sect = a['lines']
         elif kw == 'hoist':
             cur['hoist'] += pos
+            sect = None
+        elif kw == 'bindargs':
+            # //@bindargs "recv.f(" K vars="name1: Type1; name2: Type2"
+            cur['bindargs'].append((pos[0], int(pos[1]), [tuple(x.strip() for x in v_.split(':', 1)) for v_ in attrs['vars'].split(';')]))
             sect = None
         elif kw == 'unshadow':
             cur['unshadows'].append((pos[0], attrs['as'] if 'as' in attrs else pos[2]))
@@ -1107,6 +1151,7 @@ class Generator:
             if spec['hoist']:
                 text, hoisted = rule_r4_hoist(text, spec['hoist'], applied)
             text = rule_r11_unshadow(text, spec['unshadows'], applied)
+            text = rule_r12_bind_args(text, spec['bindargs'], applied)
             text = rule_r10_lift_closure(text, spec['lifts'], applied)
             text = rule_r2_fold(text, spec['folds'], applied)
             text = rule_r7_adapters(text, spec['adapters'], applied)
